@@ -17,6 +17,32 @@ pub mod io {
     pub use crate::shims::write_trait::Write;
     /// R13: `impl Read for X` blocks are extracted as inherent impls; the trait is only a name
     pub trait Read { }
+    pub trait BufRead { }
+
+    /// `BufRead::lines` of a byte sequence, as the items the iterator yields when no read
+    /// fails.  ASSUMED (std): split at b'\n', strip one trailing "\r" of a terminated line, a
+    /// final unterminated non-empty piece is a line, a line that is not UTF-8 is yielded as
+    /// Err(kind = InvalidData) AND READING CONTINUES with the next line.
+    pub uninterp spec fn lines_of(content: Seq<u8>) -> Seq<Result<String>>;
+    /// a read error other than "this line is not UTF-8"
+    pub open spec fn is_hard_error(x: Result<String>) -> bool { x is Err && x->Err_0.spec_kind() != ErrorKind::InvalidData }
+
+    #[verifier::external_body]
+    #[verifier::reject_recursive_types(R)]
+    pub struct BufReader<R> { r: R }
+    impl BufReader<crate::shims::std::fs::File> {
+        #[verifier::external_body]
+        pub fn new(f: crate::shims::std::fs::File) -> (r: Self) ensures r.file_view() == f@ { unimplemented!() }
+        pub uninterp spec fn file_view(&self) -> crate::shims::std::fs::FileV;
+        /// ASSUMED: when a read fails for another reason, the same error is yielded again on
+        /// every later `next()` (the iterator never ends): `endless` with a hard error last.
+        #[verifier::external_body]
+        pub fn lines(self) -> (r: crate::shims::iter::Iter<Result<String>>)
+            ensures
+                self.file_view().reliable ==> !r@.endless && r@.items == lines_of(self.file_view().content.subrange(self.file_view().pos, self.file_view().content.len() as int)),
+                r@.endless ==> r@.items.len() > 0 && is_hard_error(r@.items.last()),
+        { unimplemented!() }
+    }
 }
 pub mod fs {
     use vstd::prelude::*;
@@ -30,14 +56,19 @@ pub mod fs {
     /// quiescence between the verification pass and its use), `pos` the read offset.
     #[verifier::external_body]
     pub struct File { f: u8 }
-    pub struct FileV { pub path: PathV, pub content: Seq<u8>, pub pos: int }
+    pub struct FileV { pub path: PathV, pub content: Seq<u8>, pub pos: int, pub mode: OpenMode,
+        /// reads through this descriptor do not fail (true whenever the world is healthy)
+        pub reliable: bool }
+    /// how the descriptor was opened
+    pub struct OpenMode { pub read: bool, pub write: bool, pub append: bool, pub create: bool, pub truncate: bool }
+    pub open spec fn mode_read() -> OpenMode { OpenMode { read: true, write: false, append: false, create: false, truncate: false } }
     impl View for File { type V = FileV; uninterp spec fn view(&self) -> FileV; }
 
     impl File {
         #[verifier::external_body]
         pub fn open<A: PathArg>(p: A, Tracked(w): Tracked<&World>) -> (r: io::Result<File>)
             ensures
-                r is Ok ==> readable(w.fs, p.pathv()) && r->Ok_0@ == (FileV { path: p.pathv(), content: bytes_at(w.fs, p.pathv()), pos: 0 })
+                r is Ok ==> readable(w.fs, p.pathv()) && r->Ok_0@.path == resolve(w.fs, p.pathv()) && r->Ok_0@.content == bytes_at(w.fs, p.pathv()) && r->Ok_0@.pos == 0 && r->Ok_0@.mode == mode_read() && (w.healthy ==> r->Ok_0@.reliable)
                     && bytes_at(w.fs, p.pathv()).len() <= usize::MAX,
                 w.healthy && readable(w.fs, p.pathv()) ==> r is Ok,
                 r is Err && !exists_at(w.fs, p.pathv()) ==> r->Err_0.spec_kind() == io::ErrorKind::NotFound,
@@ -48,6 +79,8 @@ pub mod fs {
             ensures
                 final(buf)@.len() == old(buf)@.len(),
                 final(self)@.path == old(self)@.path,
+                final(self)@.mode == old(self)@.mode,
+                final(self)@.reliable == old(self)@.reliable,
                 final(self)@.content == old(self)@.content,
                 match r {
                     Ok(n) => n <= old(buf)@.len() && old(self)@.pos + n <= old(self)@.content.len()
@@ -109,4 +142,137 @@ pub mod fs {
             r is Err ==> final(w).fs == old(w).fs && final(w).hist == old(w).hist,
             old(w).healthy && (old(w).fs.files.contains_key(p.pathv()) || old(w).fs.links.contains_key(p.pathv())) ==> r is Ok,
     { unimplemented!() }
+
+    // ---- directories ---------------------------------------------------------------------
+    /// mkdir -p: creates `p` and its missing ancestors; files and links are untouched;
+    /// tolerant of existing directories
+    pub open spec fn mkdirs_post(pre: Fs, post: Fs, p: PathV) -> bool {
+        &&& post.files == pre.files
+        &&& post.links == pre.links
+        &&& forall|d: PathV| pre.dirs.contains(d) ==> post.dirs.contains(d)
+        &&& forall|d: PathV| post.dirs.contains(d) && !pre.dirs.contains(d) ==> under(p, d)
+    }
+    #[verifier::external_body]
+    pub fn create_dir_all<A: PathArg>(p: A, Tracked(w): Tracked<&mut World>) -> (r: io::Result<()>)
+        ensures
+            old(w).healthy == final(w).healthy,
+            world_wf(*old(w)) ==> world_wf(*final(w)),
+            hist_ext(*old(w), *final(w)),
+            mkdirs_post(old(w).fs, final(w).fs, p.pathv()),
+            forall|i: int| old(w).hist.len() <= i < final(w).hist.len() ==> mkdirs_post(old(w).fs, #[trigger] final(w).hist[i], p.pathv()),
+            r is Ok ==> final(w).fs.dirs.contains(p.pathv()),
+            old(w).healthy ==> r is Ok,
+    { unimplemented!() }
+
+    #[verifier::external_body]
+    pub struct DirBuilder { d: u8 }
+    impl View for DirBuilder { type V = bool; uninterp spec fn view(&self) -> bool; }   // recursive?
+    impl DirBuilder {
+        #[verifier::external_body]
+        pub fn new() -> (r: DirBuilder) ensures r@ == false { unimplemented!() }
+        #[verifier::external_body]
+        pub fn recursive(&mut self, rec: bool) -> (r: &mut DirBuilder) ensures final(self)@ == rec, *r == *final(self), *final(r) == *final(self) { unimplemented!() }
+    }
+
+    // ---- writing -------------------------------------------------------------------------
+    #[verifier::external_body]
+    pub struct OpenOptions { o: u8 }
+    impl View for OpenOptions { type V = OpenMode; uninterp spec fn view(&self) -> OpenMode; }
+    impl OpenOptions {
+        #[verifier::external_body]
+        pub fn new() -> (r: OpenOptions) ensures r@ == (OpenMode { read: false, write: false, append: false, create: false, truncate: false }) { unimplemented!() }
+        #[verifier::external_body]
+        pub fn read(&mut self, b: bool) -> (r: &mut OpenOptions) ensures final(self)@ == (OpenMode { read: b, ..old(self)@ }), *r == *final(self), *final(r) == *final(self) { unimplemented!() }
+        #[verifier::external_body]
+        pub fn write(&mut self, b: bool) -> (r: &mut OpenOptions) ensures final(self)@ == (OpenMode { write: b, ..old(self)@ }), *r == *final(self), *final(r) == *final(self) { unimplemented!() }
+        #[verifier::external_body]
+        pub fn append(&mut self, b: bool) -> (r: &mut OpenOptions) ensures final(self)@ == (OpenMode { append: b, ..old(self)@ }), *r == *final(self), *final(r) == *final(self) { unimplemented!() }
+        #[verifier::external_body]
+        pub fn create(&mut self, b: bool) -> (r: &mut OpenOptions) ensures final(self)@ == (OpenMode { create: b, ..old(self)@ }), *r == *final(self), *final(r) == *final(self) { unimplemented!() }
+        #[verifier::external_body]
+        pub fn truncate(&mut self, b: bool) -> (r: &mut OpenOptions) ensures final(self)@ == (OpenMode { truncate: b, ..old(self)@ }), *r == *final(self), *final(r) == *final(self) { unimplemented!() }
+        /// open(2).  With `create` a missing file is created empty (its parent directory must
+        /// exist); with `truncate` an existing file is emptied; nothing else changes.
+        #[verifier::external_body]
+        pub fn open<A: PathArg>(&self, p: A, Tracked(w): Tracked<&mut World>) -> (r: io::Result<File>)
+            ensures
+                old(w).healthy == final(w).healthy,
+                world_wf(*old(w)) ==> world_wf(*final(w)),
+                hist_ext(*old(w), *final(w)),
+                r is Err ==> final(w).fs == old(w).fs && final(w).hist == old(w).hist,
+                r is Ok ==> {
+                    let q = resolve(old(w).fs, p.pathv());
+                    let existed = old(w).fs.files.contains_key(q);
+                    let bytes0 = if existed && !self@.truncate { old(w).fs.files[q] } else { Seq::<u8>::empty() };
+                    &&& (existed || self@.create)
+                    &&& (self@.write || self@.append || (!self@.create && !self@.truncate))
+                    &&& final(w).fs == (Fs { files: old(w).fs.files.insert(q, bytes0), ..old(w).fs })
+                    &&& (final(w).fs == old(w).fs ==> final(w).hist == old(w).hist)
+                    &&& (final(w).fs != old(w).fs ==> final(w).hist == old(w).hist.push(final(w).fs))
+                    &&& r->Ok_0@.path == q && r->Ok_0@.content == bytes0 && r->Ok_0@.pos == 0 && r->Ok_0@.mode == self@ && (old(w).healthy ==> r->Ok_0@.reliable)
+                    &&& bytes0.len() <= usize::MAX
+                },
+                old(w).healthy && (self@.write || self@.append) && self@.create && old(w).fs.dirs.contains(parent_of(p.pathv()))
+                    && !old(w).fs.dirs.contains(p.pathv()) && !old(w).fs.links.contains_key(p.pathv()) ==> r is Ok,
+        { unimplemented!() }
+    }
+
+    /// what one `write`/`write_all` of `buf` through descriptor `f` does to the file `f.path`:
+    /// an O_APPEND descriptor appends at the current end of the file; any other descriptor
+    /// writes at its own offset (0 right after open), overwriting what is there
+    pub open spec fn written(f: FileV, old_bytes: Seq<u8>, data: Seq<u8>) -> Seq<u8> {
+        if f.mode.append { old_bytes + data }
+        else {
+            let start = if f.pos <= old_bytes.len() { f.pos } else { old_bytes.len() as int };
+            let tail_from = if start + data.len() <= old_bytes.len() { start + data.len() } else { old_bytes.len() as int };
+            old_bytes.subrange(0, start) + data + old_bytes.subrange(tail_from, old_bytes.len() as int)
+        }
+    }
+    pub open spec fn file_write_post(f0: FileV, f1: FileV, pre: World, post: World, buf: Seq<u8>, k: int) -> bool {
+        &&& 0 <= k <= buf.len()
+        &&& f1 == (FileV { pos: f0.pos + k, ..f0 })
+        &&& pre.fs.files.contains_key(f0.path)
+        &&& post.fs == (Fs { files: pre.fs.files.insert(f0.path, written(f0, pre.fs.files[f0.path], buf.subrange(0, k))), ..pre.fs })
+        &&& post.healthy == pre.healthy
+        &&& hist_ext(pre, post)
+        &&& (world_wf(pre) ==> world_wf(post))
+        // every intermediate state holds a prefix of what was being written (a torn write)
+        &&& forall|i: int| pre.hist.len() <= i < post.hist.len() ==> exists|j: int| 0 <= j <= k &&
+              #[trigger] post.hist[i] == (Fs { files: pre.fs.files.insert(f0.path, written(f0, pre.fs.files[f0.path], buf.subrange(0, j))), ..pre.fs })
+    }
+
+    impl io::Write for File {
+        open spec fn wr_inv(&self, w: World) -> bool { (self@.mode.write || self@.mode.append) && w.fs.files.contains_key(self@.path) }
+        open spec fn wr_sink(&self, w: World) -> Seq<u8> { w.fs.files[self@.path] }
+        open spec fn wr_step(pre_s: Self, pre: World, post_s: Self, post: World) -> bool {
+            &&& post_s@.path == pre_s@.path && post_s@.mode == pre_s@.mode
+            &&& same_except(pre.fs, post.fs, pre_s@.path) && post.fs.dirs == pre.fs.dirs
+            &&& post.healthy == pre.healthy && hist_ext(pre, post) && (world_wf(pre) ==> world_wf(post))
+        }
+        #[verifier::external_body]
+        proof fn wr_step_refl(s: Self, w: World) {}
+        #[verifier::external_body]
+        proof fn wr_step_trans(a: Self, wa: World, b: Self, wb: World, c: Self, wc: World) {}
+
+        #[verifier::external_body]
+        fn write(&mut self, buf: &[u8], Tracked(w): Tracked<&mut World>) -> (r: io::Result<usize>)
+            ensures
+                r is Ok ==> file_write_post(old(self)@, final(self)@, *old(w), *final(w), buf@, r->Ok_0 as int),
+                r is Ok && old(w).healthy ==> r->Ok_0 == buf@.len(),
+                r is Err ==> final(self)@ == old(self)@ && final(w).fs == old(w).fs && final(w).hist == old(w).hist && final(w).healthy == old(w).healthy,
+                old(w).healthy ==> r is Ok,
+        { unimplemented!() }
+        #[verifier::external_body]
+        fn flush(&mut self, Tracked(w): Tracked<&mut World>) -> (r: io::Result<()>)
+            ensures final(self)@ == old(self)@, *final(w) == *old(w), old(w).healthy ==> r is Ok,
+        { unimplemented!() }
+        /// ASSUMED: for an O_APPEND descriptor the chunks of one write_all land contiguously
+        /// (no other writer in between: quiescence)
+        #[verifier::external_body]
+        fn write_all(&mut self, buf: &[u8], Tracked(w): Tracked<&mut World>) -> (r: io::Result<()>)
+            ensures
+                exists|k: int| #[trigger] file_write_post(old(self)@, final(self)@, *old(w), *final(w), buf@, k) && (r is Ok ==> k == buf@.len()),
+                old(w).healthy ==> r is Ok,
+        { unimplemented!() }
+    }
 }
